@@ -2,25 +2,26 @@
 import ast, contextlib, io, json, os, sys
 from harness.lib import tr as trlib
 from harness.lib.common import REPO
-from harness.translators import perm_table, eval_shape
+from harness.translators import perm_table, eval_shape, eval_outputs
 
 META = dict(
     id='C19',
     model_run='PG.Model.PermRun.run',
-    model_targets=['Model/Perm.vo', 'Model/PermRun.vo'],
+    model_targets=['Model/Perm.vo', 'Model/EvalOut.vo', 'Model/PermRun.vo'],
     instance_obligations=['generated_table_covers (Proofs/PermInstance.v: covers Gen.PermTable.tbl = true, vm_compute, re-checked on the table regenerated from the current source)',
                           'generated_eval_perm_* (Proofs/PermInstance.v: four lemmas about Gen.PermTable.eval_perm as regenerated from execution.py)',
-                          'generated_shape_ok (Proofs/EvalInstance.v: shape_ok Gen.EvalShape.shape = true — the plan of evaluate() regenerated from execution.py pops only Expr/Assign and re-uses the evaluated result for complex targets)'],
+                          'generated_shape_ok (Proofs/EvalInstance.v: shape_ok Gen.EvalShape.shape = true — the plan of evaluate() regenerated from execution.py pops only Expr/Assign and re-uses the evaluated result for complex targets)',
+                          'generated_out_plan_ok (Proofs/EvalOutInstance.v: plan_ok Gen.EvalOut.out_plan = true — as regenerated from execution.py, global_vars win over context symbols, an inner context over an outer one, __builtins__ is skipped and a name is reported iff it is new or bound to another object than the snapshot taken before execution)'],
     technique='Coq proof over a rose-tree AST model (induction on the tree) + table regenerated from parsing.py by a fail-closed ast translator + differential correspondence and sentinel oracle',
     design_ref='DESIGN.md §5 C19',
     level_text=('Theorems (any program, any nesting depth, any of the 256 permission sets): the validator rejects iff some node needs a withheld flag; '
                 'the table regenerated from the current parsing.py gates every construct the property names; a rejected program never reaches the interpreter; '
                 'nested permission scopes never widen; evaluate() performs every side effect of the program exactly once, binds the same names and returns the value of the last expression/assignment (on the plan regenerated from execution.py). Tie: translator (fail-closed) regenerates Gen/PermTable.v each run and the proofs are re-checked; '
-                'the model is run against parsing.parse on every node class x withheld flag and on random nested programs; a direct oracle (sentinel proves nothing ran; accepted programs equal plain exec) runs on every case; an API-surface sweep runs permitted programs through evaluate / run (in process, sandboxed) in every return mode and with every way of injecting symbols, and the named constructs through every entry point.'),
+                'the model is run against parsing.parse on every node class x withheld flag and on random nested programs; a direct oracle (sentinel proves nothing ran; accepted programs equal plain exec) runs on every case; the names reported as intermediate variables are exactly those plain execution rebinds (binding language of Model/EvalOut.v, plan regenerated from execution.py); an API-surface sweep runs permitted programs through evaluate / run (in process, sandboxed) in every return mode and with every way of injecting symbols, and the named constructs through every entry point.'),
     level_note=('Trusted: Coq kernel; translator harness/translators/perm_table.py; extraction (ExtrOcamlBasic) cross-checked against vm_compute; Python ast.parse for turning source text into the tree. '
-                'Modelled, not verified: Python exec/eval semantics (a Section variable); result/stdout/variables equality with plain execution is decided by the oracle only (partial).'),
+                'Modelled, not verified: Python exec/eval semantics (a Section variable); result/stdout/variables equality with plain execution is proved for the event and binding languages of the model and decided by the oracle for arbitrary Python (partial).'),
     rule='a case is (program source, permission bits[, enclosing scopes]); distinct by (source, bits, scopes); non-trivial when the program has at least one node gated by some flag',
-    trusted_base=['translator harness/translators/perm_table.py (fail-closed ast reader)', 'extraction: ExtrOcamlBasic only; ocaml/main.ml lexer/printer; cross-checked against vm_compute on a sample',
+    trusted_base=['translators harness/translators/perm_table.py, eval_shape.py, eval_outputs.py (fail-closed ast readers)', 'extraction: ExtrOcamlBasic only; ocaml/main.ml lexer/printer; cross-checked against vm_compute on a sample',
                   'Python ast.parse converts source text to the tree given to the model'],
     assumptions=['exec/eval/compile semantics are a Section variable of the model (Model/Perm.v Section Evaluate)'],
 )
@@ -246,7 +247,7 @@ REQUIRED = {'Assign': 'ASSIGN', 'AugAssign': 'ASSIGN', 'AnnAssign': 'ASSIGN', 'N
             'Assert': 'EXCEPTION', 'ClassDef': 'CLASS_DEFINITION', 'FunctionDef': 'FUNCTION_DEFINITION', 'AsyncFunctionDef': 'FUNCTION_DEFINITION',
             'Lambda': 'FUNCTION_DEFINITION', 'Import': 'IMPORT', 'ImportFrom': 'IMPORT'}
 
-GENERATED = {'Gen/PermTable.v': perm_table.translate, 'Gen/EvalShape.v': eval_shape.translate}
+GENERATED = {'Gen/PermTable.v': perm_table.translate, 'Gen/EvalShape.v': eval_shape.translate, 'Gen/EvalOut.v': eval_outputs.translate}
 
 def py():
   from pyglove.core.coding import parsing, permissions, execution, errors
@@ -654,6 +655,111 @@ def api_forbidden_oracle(code, flag, api, how, flag_order):
            '%s without %s (%s): %s' % (code.split('\n')[0], flag, how, 'returned %r' % (out,) if st == 'ok' else 'raised %s' % type(out).__name__))]
 
 
+# ---- (J) which names evaluate(outputs_intermediate=True) reports: straight-line binding programs (Model/EvalOut.v) -----
+class _Obj:
+  def __init__(self, i): self.i = i
+  def __repr__(self): return 'Obj(%d)' % self.i
+
+def binding_source(prog):
+  lines = []
+  for st in prog:
+    if st[0] == 0: lines.append('n%d = n%d' % (st[1], st[2]))
+    elif st[0] == 1: lines.append('n%d = [%d]' % (st[1], st[2]))
+    elif st[0] == 2: lines.append('del n%d' % st[1])
+    else: lines.append('n%d' % st[1])
+  return '\n'.join(lines)
+
+def _ident(v):
+  if isinstance(v, _Obj): return v.i
+  if isinstance(v, list) and len(v) == 1 and isinstance(v[0], int): return v[0]
+  if isinstance(v, dict) and '__name__' in v: return 0        # the builtins dict
+  return 999
+
+def _name_idx(k):
+  if k == '__result__': return 1
+  if k == '__builtins__': return 0
+  return int(k[1:]) if k[:1] == 'n' and k[1:].isdigit() else 998
+
+def impl_bindings(ctxs, gv, prog, plain=False):
+  """-> ([4, opt([[name, obj] ...])], expected-by-plain-execution or None)"""
+  parsing, permissions, execution, errors = py()
+  objs = {}
+  ob = lambda i: objs.setdefault(i, _Obj(i))
+  src = binding_source(prog)
+  with contextlib.ExitStack() as st:
+    g = {'n%d' % k: ob(v) for k, v in gv}
+    if plain:
+      # the documented rule, not the code's: an inner context over an outer one, global_vars over both
+      syms = {}
+      for c in ctxs:
+        syms.update({'n%d' % k: ob(v) for k, v in c})
+      syms.update(g)
+      init = dict(syms)
+      try:
+        exec(compile(src, '', 'exec'), syms)
+      except Exception:
+        return None
+      return sorted([_name_idx(k), _ident(v)] for k, v in syms.items() if k != '__builtins__' and (k not in init or v is not init[k]))
+    for c in ctxs:
+      st.enter_context(execution.context(**{'n%d' % k: ob(v) for k, v in c}))
+    try:
+      out = execution.evaluate(src, global_vars=g, outputs_intermediate=True)
+    except errors.CodeError:
+      return [4, trlib.opt(None)]
+    except BaseException:   # noqa
+      return [4, [[[997, 997]]]]
+  return [4, trlib.opt([[_name_idx(k), _ident(v)] for k, v in out.items() if k != '__stdout__'])]
+
+def binding_case_tr(ctxs, gv, prog):
+  return [4, [[list(kv) for kv in c] for c in ctxs], [list(kv) for kv in gv], [list(st) for st in prog]]
+
+def binding_oracle(ctxs, gv, prog):
+  """The reported names (other than __result__) are exactly those plain execution leaves bound to another object."""
+  got = impl_bindings(ctxs, gv, prog)
+  want = impl_bindings(ctxs, gv, prog, plain=True)
+  if not prog:
+    return [] if got == [4, [[]]] else [('C19/intermediates/empty-program', 'an empty program reports %r' % (got,))]
+  if want is None:
+    return [] if got == [4, []] else [('C19/intermediates/error-differs', 'plain execution raises, evaluate() reports %r' % (got,))]
+  if got == [4, []] or got[1] == [[[997, 997]]]:
+    return [('C19/intermediates/raises', 'plain execution succeeds, evaluate() raises, for:\n%s' % binding_source(prog))]
+  rep = sorted(kv for kv in got[1][0] if kv[0] != 1)
+  if rep != want:
+    return [('C19/intermediates/names-differ', 'evaluate() reports %r, plain execution rebinds %r, for:\n%s' % (rep, want, binding_source(prog)))]
+  return []
+
+def all_binding_statements(names, sources):
+  out = [(0, x, s) for x in names for s in sources] + [(1, x, None) for x in names] + [(2, x) for x in sources] + [(3, s) for s in sources]
+  return out
+
+def binding_setups():
+  return [([], [(4, 10), (2, 11)]), ([[(4, 10), (2, 11)]], []), ([[(4, 10), (2, 11)]], [(2, 12)]),
+          ([[(4, 10), (2, 11), (3, 13)], [(2, 12)]], [(3, 14)]), ([], [])]
+
+def number_news(prog):
+  out, n = [], 100
+  for st in prog:
+    if st[0] == 1:
+      out.append((1, st[1], n)); n += 1
+    else:
+      out.append(st)
+  return out
+
+def gen_binding_case(rng):
+  names = list(range(2, 8))
+  mk = lambda: [(k, rng.randint(10, 14)) for k in rng.sample(names, rng.randint(0, 4))]
+  ctxs = [mk() for _ in range(rng.choice([0, 1, 1, 2, 3]))]
+  gv = mk()
+  prog = []
+  for _ in range(rng.randint(1, 6)):
+    k = rng.choice([0, 0, 0, 1, 1, 2, 3])
+    if k == 0: prog.append((0, rng.choice(names), rng.choice(names)))
+    elif k == 1: prog.append((1, rng.choice(names), None))
+    elif k == 2: prog.append((2, rng.choice(names)))
+    else: prog.append((3, rng.choice(names)))
+  return ctxs, gv, number_news(prog)
+
+
 def parseable(snips):
   out = []
   for s in snips:
@@ -666,6 +772,7 @@ def parseable(snips):
 def run(ctx):
   info = ctx.regen('Gen/PermTable.v', perm_table.translate)
   ctx.regen('Gen/EvalShape.v', eval_shape.translate)
+  ctx.regen('Gen/EvalOut.v', eval_outputs.translate)
   ctx.build()
   if info is None:
     kinds = perm_table.node_kinds(); flag_order = FLAG_NAMES
@@ -773,6 +880,22 @@ def run(ctx):
     if log != plog or out[2] != pout[2]:
       ctx.hit('C19/granted-program-differs/effects-trace', 'evaluate() performs %s, plain execution %s, for:\n%s' % (log, plog, trace_source(st)),
               dict(code='T_ = None\n', trace_program=[list(x) for x in st], arg_bits=None, scopes=[], flag_order=flag_order))
+  # (J) binding programs: exhaustive small scope + random, against the model (case 4) and against plain execution
+  import itertools
+  stmts_small = all_binding_statements([2, 3], [2, 3, 4])
+  bprogs = []
+  for n in range(0, ctx.scale(2, 3) + 1):
+    for combo in itertools.product(stmts_small, repeat=n):
+      for setup in (binding_setups() if n <= 2 else binding_setups()[2:4]):
+        bprogs.append((setup[0], setup[1], number_news(combo)))
+  bprogs += [gen_binding_case(rng) for _ in range(ctx.scale(800, 10000))]
+  for cx, gv, prog in bprogs:
+    impl_outs.append(impl_bindings(cx, gv, prog)); trs.append(binding_case_tr(cx, gv, prog))
+    descrs.append(dict(bindings=binding_source(prog), contexts=cx, global_vars=gv))
+    ctx.count(('bind', repr((cx, gv, prog))), nontrivial=len(prog) > 1 and bool(cx or gv), kind='binding-program')
+    for sig, what in binding_oracle(cx, gv, prog):
+      ctx.hit(sig, what, dict(binding_case=dict(ctxs=cx, gv=gv, prog=[list(x) for x in prog]), flag_order=flag_order))
+  ctx.extra['binding_programs'] = len(bprogs)
   model_outs = ctx.model_run(trs)
   lookup = {id(t): d for t, d in zip(trs, descrs)}
   bad = ctx.compare('Perm.run vs parsing.parse / permissions.permission', trs, impl_outs, model_outs, describe=lambda c: lookup.get(id(c)))
@@ -898,6 +1021,12 @@ def replay(ctx, rp):
     st = [(k, v, [tuple(t) for t in ts], i) for k, v, ts, i in c['trace_program']]
     out, log = impl_trace(st); pout, plog = impl_trace(st, plain=True)
     return log == plog and out[2] == pout[2]
+  if c.get('binding_case'):
+    b = c['binding_case']
+    hits = binding_oracle([[tuple(kv) for kv in e] for e in b['ctxs']], [tuple(kv) for kv in b['gv']], [tuple(x) for x in b['prog']])
+    for h in hits:
+      print('  still fails:', h)
+    return not hits
   if c.get('api_case'):
     a = c['api_case']
     hits = api_oracle(a['code'], a['mode'], a['symsrc'], a['api'], a['perm_bits'], c['flag_order'])
